@@ -1165,3 +1165,27 @@ Proof.
   repeat match goal with |- _ /\ _ => split end; vm_compute; reflexivity.
 Qed.
 End C07_translated_5.
+
+(* ---- vi_findchar (vi.c): f F t T record the searched character in vi_charlast (strcpy) and the command in vi_charcmd BEFORE the
+   search runs, whether it succeeds or fails (`;` and `,` repeat a failed search too: MotDefs.vi_motion returns MvFail cs cmd), then
+   lbuf_findchar.  cs in a block of its own (not vi_charlast itself: that is the `;` `,` path), short enough for vi_charlast[8]. *)
+Section C07_translated_6.
+Import CLite CLiteProps GenCFuncs TrLbufBase TrUc TrMot TrViMot.
+Theorem C07_tr_vi_findchar : forall m lb bln lbs lines br bo bc cst (cmdN : N) n r o last cmd0 d fuel,
+  lbuf_at m lb bln lbs lines -> lines_small lines -> lines_valid lines ->
+  cell_at m br r -> cell_at m bo o -> i32 r -> i32 o ->
+  str_at m bc cst -> nonul cst -> (uc_len_b (nthb cst 0) - 1 <= length cst)%nat ->
+  nth_error m G_vi_charlast = Some last -> (S (length cst) <= length last)%nat -> cell_at m G_vi_charcmd cmd0 ->
+  ~ In G_vi_charlast (bc :: br :: bo :: lb :: bln :: lbs) -> ~ In G_vi_charcmd (bc :: br :: bo :: lb :: bln :: lbs) ->
+  (Z.of_N cmdN <= 2147483647)%Z -> (-2147483647 <= n <= 2147483647)%Z -> n <> 0%Z ->
+  (forall l, getl (map chop lines) r = Some l -> (0 <= o < slen l)%Z) ->
+  (maxlen lines < fuel)%nat ->
+  exists sv,
+  callf cprog fuel (S (S (S (S (S d))))) F_vi_findchar [VPtr lb 0; VPtr bc 0; VInt (Z.of_N cmdN); VInt n; VPtr br 0; VPtr bo 0] m
+  = match lbuf_findchar (map chop lines) cst cmdN n r o with
+    | Some o' => Ok (VInt 0, upd (fc_recorded m last cst (Z.of_N cmdN)) bo [VInt o'] ++ [[sv]])
+    | None => Ok (VInt 1, fc_recorded m last cst (Z.of_N cmdN) ++ [[sv]])
+    end.
+Proof. exact tr_vi_findchar. Qed.
+Print Assumptions C07_tr_vi_findchar.
+End C07_translated_6.
